@@ -1,6 +1,7 @@
 package gnogo
 
 import (
+	"strings"
 	"encoding/json"
 	"fmt"
 	"os"
@@ -45,6 +46,7 @@ func TestDevBisect(t *testing.T) {
 			}()
 			r := runGno(gnoSrc)
 			g := runGo(goSrc)
+			fmt.Printf("FRAG %d GOOUT %q\n", i, strings.TrimPrefix(g.Out, "#0\n"))
 			if r.Crash != "" || r.Rejected != "" || r.Panic != "" || r.Out != g.Out {
 				fmt.Printf("FRAG %d: differs: crash=%.80q rejected=%q panic=%q diff=%s\n", i, r.Crash, r.Rejected, r.Panic, firstDiff(g.Out, r.Out))
 				os.WriteFile(fmt.Sprintf("/var/tmp/gnogo-tmp/bisect-%d.gno", i), []byte(gnoSrc), 0o644)
